@@ -54,10 +54,15 @@ class LForm:
         self.qnames = []
         self.stack = []
         self.repeats = []
+        self.single_colon = rnd.random() < 0.2
 
     def hdr(self, logical):
         if logical not in self.spell:
-            self.spell[logical] = self.rnd.choice(SPELL[logical]) if logical in SPELL else logical
+            h = self.rnd.choice(SPELL[logical]) if logical in SPELL else logical
+            if self.single_colon:
+                # legacy delimiter: the whole sheet uses ':' (no header may contain '::'), e.g. bind:jr:constraintMsg
+                h = h.replace("::", ":")
+            self.spell[logical] = h
         return self.spell[logical]
 
 
@@ -133,6 +138,9 @@ def build(shapes, seed=0, mode="binds", formname="data"):
         ref = "${" + rnd.choice(f.qnames) + "}" if f.qnames and rnd.random() < 0.5 else None
         if mode == "binds" and shape != "note_noname":
             cols = ["relevant"] if is_section else ["relevant", "required", "readonly", "constraint", "jr:constraintMsg", "jr:requiredMsg", "custom_a", "odk:length"]
+            if f.single_colon:
+                # with the legacy ':' delimiter only the jr: prefix is re-joined (process_header); other prefixes need '::'
+                cols = [c for c in cols if c != "odk:length"]
             if qtype not in (None, "calculate") and not is_section:
                 cols.append("calculate")
             k = rnd.choice([0, 1, 1, 2, 3, len(cols)])
@@ -179,9 +187,12 @@ def build(shapes, seed=0, mode="binds", formname="data"):
                 v = rnd.choice(["true", "false"])
                 row["parameters"] = f"allow-mock-accuracy={v}"
                 attrs.append(["odk:allow-mock-accuracy", v, "lit"])
-            if qtype == "range" and rnd.random() < 0.5:
-                row["parameters"] = "start=0.5 end=5.5 step=0.5"
-                attrs.append(["type", "decimal", "lit"])
+            if qtype == "range" and rnd.random() < 0.7:
+                # XLSForm reference: the bind type of a range is decimal as soon as any of start / end / step is a decimal
+                params, btype = rnd.choice([("start=0.5 end=5.5 step=0.5", "decimal"), ("start=1 end=9 step=2", "int"), ("start=0 end=1 step=0.1", "decimal"),
+                                            ("step=0.5", "decimal"), ("start=1.5 end=10 step=1", "decimal"), ("end=7", "int"), ("start=2 end=4.0 step=1", "decimal")])
+                row["parameters"] = params
+                attrs.append(["type", btype, "lit"])
             # a trigger cell moves the calculation into a setvalue action; every other logic cell stays on the bind
             if f.visible and shape in ("text", "typed", "calc") and rnd.random() < 0.2:
                 tname, tpath = rnd.choice(f.visible)
